@@ -76,6 +76,17 @@ func ardop.readFrameOfType(fType, reader, isTCP) (f, err)
 func ardop.(*tncConn).Read(conn, p) (n, err)
   props C14
   ensures bounds: 0 <= n && n <= len(p)
+  # buffered data first and in order, the queue only when nothing is buffered, what does not fit is
+  # kept, end of stream only when the queue is closed, nothing reported together with an error
+  ensures rest-first: old(len(conn.rest)) > 0 && len(p) > 0 ==> err == nil && n == min(len(p), old(len(conn.rest))) && len(conn.rest) == old(len(conn.rest)) - n
+  ensures nothing-reported-on-error: err != nil ==> n == 0
+  at return#0 requires empty-buffer-reads-nothing: len(p) == 0 && $r0 == 0 && $r1 == nil
+  at recv requires queue-only-when-nothing-is-buffered: len(conn.rest) == 0 && $0 == conn.dataIn
+  at recv set gArdopRecv := true
+  at return#1 requires eof-only-when-the-queue-is-closed: !ok && $r1 == io.EOF
+  at copy requires delivers-the-buffered-bytes-in-order: same($0, p) && same($1, conn.rest)
+  at return#2 requires waits-for-data-when-nothing-is-buffered: (old(len(conn.rest)) > 0 || gArdopRecv) && $r1 == nil
+ghost var gArdopRecv bool
 
 # ---------------------------------------------------------------------------
 # tncConn.Write: ["D:"] ++ BE16(len) ++ data ++ [BE16(crc(BE16(len) ++ data))]
@@ -85,6 +96,10 @@ func ardop.(*tncConn).Read(conn, p) (n, err)
 ghost var gFrameBytes []byte
 ghost var gWriteCRC uint16
 ghost var gFramed int
+ghost var gSends int
+ghost var gRetry bool
+ghost var gAcked bool
+ghost var gFrameAll []byte
 
 func ardop.(*broadcaster).Listen(b) (r)
   props C14
@@ -135,7 +150,59 @@ func ardop.(*tncConn).Write(conn, p) (n, err)
   call ardop.crc16Sum set gWriteCRC := $r0
   call binary.Write#1 requires crc-be16: !conn.isTCP && typeis($1, "binary.bigEndian") && unbox($2) == gWriteCRC
   at send requires attempts: i < 3
-  loop 0 invariant attempts: 0 <= i && i <= 3 && gFramed == min(len(p), 65535) && len(p) <= 65535
+  # the frame is transmitted at most three times, again only after the TNC reported a CRC fault,
+  # success only after the TNC acknowledged it with a BUFFER report (which also arms the flush
+  # lock), any other report is ignored
+  at send requires the-frame-to-the-data-port: $0 == conn.dataOut && same($1, gFrameAll)
+  at send requires retransmits-only-after-a-crc-fault: gSends == 0 || gRetry
+  at send set gSends := gSends + 1
+  at send set gRetry := false
+  call bytes.(*Buffer).Bytes#1 set gFrameAll := $r0
+  call ardop.debugEnabled requires crc-fault-reported: msg.cmd == cmdCRCFault
+  call ardop.debugEnabled set gRetry := true
+  call ardop.(*lock).Lock requires flush-armed-only-by-a-buffer-report: msg.cmd == cmdBuffer
+  call ardop.(*lock).Lock set gAcked := true
+  at return#1 requires gives-up-after-three-transmissions: gSends == 3 && $r0 == 0 && $r1 != nil
+  at return#2 requires link-down-is-eof: $r1 == io.EOF
+  at return#3 requires acknowledged-by-a-buffer-report: gAcked && $r1 == nil
+  loop 0 invariant attempts: 0 <= i && i <= 3 && gFramed == min(len(p), 65535) && len(p) <= 65535 && gSends == i && !gAcked && (i > 0 ==> gRetry)
+  loop 1 invariant waiting: gSends == i + 1 && !gAcked && !gRetry && 0 <= i && i < 3 && gFramed == min(len(p), 65535) && len(p) <= 65535
   ensures count: err == nil ==> n == gFramed && n == min(len(p), 65535)
+
+
+# Close: nothing to do for a nil connection only; the disconnect command goes to the TNC, success
+# only after the TNC confirmed the disconnect, an abort after the timeout
+ghost var gCloseState int
+func ardop.(*tncConn).Close(conn) (err)
+  props C14
+  nosafety
+  loop 0 reads-input waits for the TNC's disconnect report or the timeout (not a remote-input loop)
+  at return#1 requires nothing-to-do-for-a-nil-connection-only: conn == nil
+  at send#0 requires asks-the-tnc-to-disconnect: $0 == conn.ctrlOut && streq($1, "DISCONNECT")
+  call ardop.(ctrlMsg).State set gCloseState := $r0
+  at return#2 requires tnc-hung-up-is-an-error: !ok && $r0 != nil
+  at return#3 requires success-only-after-the-disconnect-was-confirmed: ok && (msg.cmd == cmdDisconnected || (msg.cmd == cmdNewState && gCloseState == Disconnected))
+  at send#1 requires aborts-after-the-timeout: $0 == conn.ctrlOut && streq($1, "ABORT")
+  at return#4 requires timeout-is-reported: $r0 == ErrDisconnectTimeout
+
+# the TNC's BUFFER report: the count is recorded, and the flush lock is released exactly when
+# the transmit buffer is empty
+ghost var gReleased bool
+func ardop.(*tncConn).updateBuffer(conn, b) ()
+  props C14
+  at return#2 requires nothing-to-do-for-a-nil-connection-only: conn == nil
+  call ardop.(*lock).Unlock requires released-only-when-the-buffer-is-empty: b == 0
+  call ardop.(*lock).Unlock set gReleased := true
+  ensures recorded: conn != nil ==> conn.buffer == b
+  ensures flush-released-when-empty: conn != nil && b == 0 ==> gReleased
+
+func ardop.(*tncConn).Flush(conn) (err)
+  props C14
+  requires conn: conn != nil
+  at select requires waits-for-the-flush-or-the-end-of-the-link: $c1 == conn.eofChan
+  at select set gFlushSel := $chosen
+  at return#0 requires flushed: gFlushSel == 0
+  at return#1 requires link-down-is-eof: gFlushSel == 1 && $r0 == io.EOF
+ghost var gFlushSel int
 
 @*/
